@@ -59,6 +59,9 @@ class DocGen:
                     props[j] = (props[i][1]["$anchor"], props[j][1])
                     self.features.add("key-equals-sibling-anchor")
             d = {"type": "object", "properties": dict(props)}
+            if not props and rng.random() < 0.5:
+                d = {"type": "object"}           # the keyword itself is optional
+                self.features.add("object-without-properties-keyword")
         else:
             d = {"oneOf": [self.gen(depth + 1) for _ in range(rng.randint(1, 3))]}
             self.features.add("oneOf")
@@ -277,7 +280,7 @@ def explore(ck: Check, n_docs: int) -> None:
         if i % 5 == 0 and doc.get("type") == "object" and "oneOf" not in doc:
             # forward and backward references to an object WITHOUT properties
             a = g.name()
-            props = dict(doc["properties"])
+            props = dict(doc.get("properties", {}))
             doc["properties"] = {f"fwd{a.lower()}": {"$ref": "#" + a}, **props,
                                  f"e{a.lower()}": {"type": "object", "properties": {}, "$anchor": a},
                                  f"bwd{a.lower()}": {"$ref": "#" + a}}
@@ -328,9 +331,9 @@ def explore(ck: Check, n_docs: int) -> None:
             if cls == "ArraySchema":
                 return mirror(s.items, d["items"])
             if cls == "ObjectSchema":
-                if list(s.properties) != list(d["properties"]):
+                if list(s.properties) != list(d.get("properties", {})):
                     return "property order differs"
-                for k in d["properties"]:
+                for k in d.get("properties", {}):
                     if (m := mirror(s.properties[k], d["properties"][k])):
                         return m
             if cls == "RefToSchema":
@@ -400,7 +403,7 @@ def explore(ck: Check, n_docs: int) -> None:
                     hops2 = 0
                     while "$ref" in d2 and hops2 < 6:
                         d2, hops2 = anchors[d2["$ref"][1:]], hops2 + 1
-                d2 = d2["items"] if isinstance(st, int) else d2["properties"][st]
+                d2 = d2["items"] if isinstance(st, int) else d2.get("properties", {})[st]
             hops2 = 0
             while "$ref" in d2 and hops2 < 6:
                 d2, hops2 = anchors[d2["$ref"][1:]], hops2 + 1
